@@ -647,13 +647,17 @@ HUGE = [10 ** 9, 999999999999, -10 ** 9, 1e308, 2 ** 70, 0.5, 2, 'abc', '1e99999
 HUGE_LITERALS = ['9^999999999', '7*(9^99999999)', '2^1024', '99^999', '2^999999999^2', '10^400', '1/(9^99999999)', '(2^1023)*2', 'A' * 40000 + '1',
                  '999999999^999999999', '1^999999999', '0^999999999', 'SUM(9^999999999,1)', '-9^99999999', '9^99999999&"a"',
                  '9^99999999=9^99999999', 'IFERROR(9^999999999,1)', '"1e999999999"+0', '-"1e999999999"', '"5e-999999999"*2',
-                 'COUNTIF({1,2},">1e999999999")', '"1e999999999"="1e999999999"', '"1e999999999"&""']
+                 'COUNTIF({1,2},">1e999999999")', '"1e999999999"="1e999999999"', '"1e999999999"&""',
+                 # whole numbers of 5 000 digits, negated, joined, compared, flattened
+                 '-' + '9' * 5000 + '&""', '(0-' + '9' * 5000 + ')&"x"', '9' * 5000 + '&""', 'LEN(-' + '7' * 4400 + ')',
+                 '(0-' + '9' * 5000 + ')=(0-' + '9' * 5000 + ')', 'CONCATENATE(0-' + '9' * 5000 + ',1)', 'SUM(-' + '1' * 5000 + ',1)&""',
+                 'TEXTJOIN(",",TRUE,0-' + '9' * 5000 + ')']
 
 
 class Blowups(Sub):
     name = 'c01.blowups'
     rule = ('each documented function x arity 1..3 x every argument tuple over {1e9, 1e12-1, -1e9, 1e308, 2^70, 0.5, 2, "abc", the text "1e999999999"} that '
-            'holds at least one huge number (variables), 22 literal forms with huge integer powers or huge numeric text, and 6 flattening functions over 20 000 / 50 000 rows: a well-formed record '
+            'holds at least one huge number (variables), 30 literal forms with huge integer powers, huge numeric text or 5 000-digit integers, and 6 flattening functions over 20 000 / 50 000 rows: a well-formed record '
             'within the step budget AND within a 3 s wall-clock alarm, under an address-space limit of 4 GiB - an exact '
             'integer power, a factorial, 10**digits or a padding to 10^9 places stalls below the Python level and executes no '
             'line; non-trivial = all')
